@@ -917,6 +917,210 @@ func c12RunAskMsg(line string) string {
 	return fmt.Sprintf("ok delivered=%d", d)
 }
 
+
+// ---------------------------------------------------------------------------------------------
+// nil messages (untyped nil, typed nil pointer) are messages like any other
+
+// c12NilKind: what sender i submits at position seq: 'N' untyped nil (typed nil for a pointer actor), 'P' typed nil
+// pointer, 'v' an ordinary message
+func c12NilKind(i, seq int) byte {
+	switch (i*7 + seq) % 4 {
+	case 0:
+		return 'N'
+	case 1:
+		return 'P'
+	}
+	return 'v'
+}
+
+func c12RunNilMsg(line string) string {
+	toks := strings.Fields(line)
+	typ, capacity, n, m := c12KV(toks, "t"), c12KVInt(toks, "cap"), c12KVInt(toks, "n"), c12KVInt(toks, "m")
+	var mu sync.Mutex
+	var log []string // "N", "P" or "<i>/<seq>" in the order the effect saw them
+	var running, delivered, overlap int32
+	record := func(tok string) {
+		if r := atomic.AddInt32(&running, 1); r > 1 {
+			atomic.StoreInt32(&overlap, r)
+		}
+		mu.Lock()
+		log = append(log, tok)
+		mu.Unlock()
+		atomic.AddInt32(&running, -1)
+		atomic.AddInt32(&delivered, 1)
+	}
+	var send func(i, seq int)
+	var closeIt func()
+	selfBad := int32(0)
+	if typ == "P" {
+		var actor *fpgo.ActorDef[*c12Msg]
+		effect := func(self *fpgo.ActorDef[*c12Msg], msg *c12Msg) {
+			if self != actor {
+				atomic.AddInt32(&selfBad, 1)
+			}
+			if msg == nil {
+				record("P")
+			} else {
+				record(fmt.Sprintf("%d/%d", msg.sender, msg.seq))
+			}
+		}
+		if capacity == 0 {
+			actor = fpgo.ActorNewGenerics(effect)
+		} else {
+			actor = fpgo.ActorNewByOptionsGenerics(effect, make(chan *c12Msg, capacity), map[string]interface{}{})
+		}
+		send = func(i, seq int) {
+			if c12NilKind(i, seq) == 'v' {
+				actor.Send(&c12Msg{i, seq})
+			} else {
+				actor.Send(nil)
+			}
+		}
+		closeIt = func() { actor.Close() }
+	} else {
+		var actor *fpgo.ActorDef[interface{}]
+		effect := func(self *fpgo.ActorDef[interface{}], msg interface{}) {
+			if self != actor {
+				atomic.AddInt32(&selfBad, 1)
+			}
+			switch x := msg.(type) {
+			case nil:
+				record("N")
+			case *c12Msg:
+				if x == nil {
+					record("P")
+				} else {
+					record(fmt.Sprintf("%d/%d", x.sender, x.seq))
+				}
+			case c12Msg:
+				record(fmt.Sprintf("%d/%d", x.sender, x.seq))
+			default:
+				record("?")
+			}
+		}
+		var proto fpgo.ActorDef[interface{}]
+		if capacity == 0 {
+			actor = proto.New(effect)
+		} else {
+			actor = proto.NewByOptions(effect, make(chan interface{}, capacity), map[string]interface{}{})
+		}
+		send = func(i, seq int) {
+			switch c12NilKind(i, seq) {
+			case 'N':
+				actor.Send(nil)
+			case 'P':
+				actor.Send((*c12Msg)(nil))
+			default:
+				if seq%2 == 0 {
+					actor.Send(c12Msg{i, seq})
+				} else {
+					actor.Send(&c12Msg{i, seq})
+				}
+			}
+		}
+		closeIt = func() { actor.Close() }
+	}
+	expect := func(i, seq int) string {
+		k := c12NilKind(i, seq)
+		if k == 'v' {
+			return fmt.Sprintf("%d/%d", i, seq)
+		}
+		if typ == "P" {
+			return "P"
+		}
+		return string(k)
+	}
+	var wg sync.WaitGroup
+	panicked := int32(0)
+	for i := 0; i < n; i++ {
+		wg.Add(1)
+		go func(i int) {
+			defer wg.Done()
+			defer func() {
+				if r := recover(); r != nil {
+					atomic.AddInt32(&panicked, 1)
+				}
+			}()
+			for seq := 0; seq < m; seq++ {
+				send(i, seq)
+			}
+		}(i)
+	}
+	done := make(chan struct{})
+	go func() { wg.Wait(); close(done) }()
+	select {
+	case <-done:
+	case <-time.After(c13StressPatience(20 * time.Second)):
+		atomic.AddInt32(&c13StressViols, 1)
+		return "viol deadlock senders still blocked"
+	}
+	deadline := time.Now().Add(c13StressPatience(5 * time.Second))
+	for atomic.LoadInt32(&delivered) < int32(n*m) && time.Now().Before(deadline) {
+		time.Sleep(50 * time.Microsecond)
+	}
+	time.Sleep(2 * time.Millisecond) // anything delivered twice would show up now
+	func() { defer func() { recover() }(); closeIt() }()
+	mu.Lock()
+	got := append([]string{}, log...)
+	mu.Unlock()
+	viol := ""
+	want := map[string]int{}
+	for i := 0; i < n; i++ {
+		for seq := 0; seq < m; seq++ {
+			want[expect(i, seq)]++
+		}
+	}
+	have := map[string]int{}
+	last := make([]int, n)
+	for i := range last {
+		last[i] = -1
+	}
+	for _, tok := range got {
+		have[tok]++
+		var i, seq int
+		if k, _ := fmt.Sscanf(tok, "%d/%d", &i, &seq); k == 2 && i >= 0 && i < n {
+			if seq <= last[i] {
+				viol = fmt.Sprintf("order sender %d: %d ran after %d", i, seq, last[i])
+			}
+			last[i] = seq
+		}
+	}
+	switch {
+	case atomic.LoadInt32(&panicked) != 0:
+		viol = "panic escaped from Send"
+	case atomic.LoadInt32(&overlap) > 1:
+		viol = "overlap two effects at once"
+	case atomic.LoadInt32(&selfBad) != 0:
+		viol = "self effect received another actor"
+	case viol != "":
+	default:
+		for tok, w := range want {
+			if have[tok] < w {
+				viol = fmt.Sprintf("lost message %s ran %d times, submitted %d times (delivered=%d of %d)", tok, have[tok], w, len(got), n*m)
+				break
+			}
+		}
+		for tok, h := range have {
+			if viol == "" && h > want[tok] {
+				viol = fmt.Sprintf("duplicate or phantom message %s ran %d times, submitted %d times", tok, h, want[tok])
+			}
+		}
+		if viol == "" && n == 1 { // one sender: the effect must have seen exactly its sequence, nils in their places
+			for seq := 0; seq < m; seq++ {
+				if got[seq] != expect(0, seq) {
+					viol = fmt.Sprintf("order position %d is %s, submitted %s", seq, got[seq], expect(0, seq))
+					break
+				}
+			}
+		}
+	}
+	if viol != "" {
+		atomic.AddInt32(&c13StressViols, 1)
+		return "viol " + viol
+	}
+	return fmt.Sprintf("ok delivered=%d", len(got))
+}
+
 // ---------------------------------------------------------------------------------------------
 // spawn trees
 
@@ -1085,6 +1289,8 @@ func c12Run(line string) string {
 		return c12RunFresh(line)
 	case strings.HasPrefix(line, "askmsg "):
 		return c12RunAskMsg(line)
+	case strings.HasPrefix(line, "nilmsg "):
+		return c12RunNilMsg(line)
 	case strings.HasPrefix(line, "tree"):
 		return c12RunTree(line)
 	}
@@ -1328,6 +1534,21 @@ func c12Gen(tier string, rng *rand.Rand, emit func(string)) map[string]interface
 		}
 	}
 	stats["askmsg_cases"] = nAskMsg
+	// (4d) nil messages (untyped nil, typed nil pointer) inside the per-sender sequences
+	nNil := 0
+	for _, typ := range []string{"I", "P"} {
+		for _, capacity := range []int{0, 4} {
+			for _, n := range []int{1, 4} {
+				mm := 8 + rng.Intn(24)
+				if thorough {
+					mm *= 8
+				}
+				emit(fmt.Sprintf("nilmsg t=%s cap=%d n=%d m=%d seed=%d", typ, capacity, n, mm, rng.Intn(1000000)))
+				nNil++
+			}
+		}
+	}
+	stats["nilmsg_cases"] = nNil
 	// (5) spawn trees: sequential histories
 	nTree := 120
 	if thorough {
